@@ -32,6 +32,7 @@ Definition report : list string :=
   [ info_line "functions" (map snd names);
     info_line "unclassified" (map fn_name unclassified);
     info_line "hook_api" (map fn_name hook_api);
+    info_line "stdlib_summaries_used" stdlib_summaries_used;
     info_line "readonly_calling_user_function"
               (map fn_name (filter (fun f => e_userfn (closure f)) readonly_api));
     info_line "mutators_without_any_write"
